@@ -228,7 +228,12 @@ func runStartup(scratch string, s Snap) StartupResult {
 		Settings map[string]interface{}
 		InConfig []string
 	}
-	d := json.NewDecoder(bytes.NewReader(stdout.Bytes()))
+	// the report is the last line of the output (start-up code may print messages of its own before it)
+	report := bytes.TrimSpace(stdout.Bytes())
+	if i := bytes.LastIndexByte(report, '\n'); i >= 0 {
+		report = report[i+1:]
+	}
+	d := json.NewDecoder(bytes.NewReader(report))
 	d.UseNumber()
 	if err := d.Decode(&out); err != nil {
 		panic(fmt.Sprintf("cannot decode start-up output %q: %v", stdout.String(), err))
